@@ -92,6 +92,8 @@ def _stmt_order_insensitive(st: ast.stmt, loop_vars: Set[str]) -> Optional[str]:
 
 
 def run(repo: Repo, rep: Report, tier: str) -> None:
+    from sa.report import guarded as _guarded
+
     live = [m for m in repo.import_closure(["generator.client_generator"]) if m not in RUNTIME_ONLY]
     res = Resolver(repo)
     st = SetTypes(repo, res)
@@ -99,7 +101,7 @@ def run(repo: Repo, rep: Report, tier: str) -> None:
     # (the same document would give other bytes below /x/models/ than below /x/work/)                                       [= R13.9]
     from rules.c13 import rule_self_import_compares_the_package
 
-    rule_self_import_compares_the_package(repo, rep, "R9.15")
+    _guarded(rep, rule_self_import_compares_the_package, repo, rep, "R9.15")
 
     # ---------------------------------------------------------------- R9.1
     n_iter = 0
@@ -177,8 +179,8 @@ def run(repo: Repo, rep: Report, tier: str) -> None:
     _global_state(repo, live, rep, res)
 
     # ---------------------------------------------------------------- R9.4 / R9.5 diff completeness
-    rule_show_diffs_model(repo, rep, "R9.4")
-    rule_show_diffs_compares_all(repo, rep, "R9.4")
+    _guarded(rep, rule_show_diffs_model, repo, rep, "R9.4")
+    _guarded(rep, rule_show_diffs_compares_all, repo, rep, "R9.4")
 
     # ---------------------------------------------------------------- R9.5 / R9.6 / R9.7 on generate()
     from rules import c10
@@ -342,7 +344,7 @@ def run(repo: Repo, rep: Report, tier: str) -> None:
                       "package, the post-processor groups `from apis.client...` differently, and an immediate re-run over an unchanged nested package fails with "
                       "'Differences found'", gen.loc(sw))
 
-    rule_relpath_operands_agree(repo, rep, "R9.11")
+    _guarded(rep, rule_relpath_operands_agree, repo, rep, "R9.11")
     # R9.9 output is independent of prior runs: the shared-core registry entry of a client is overwritten with its current codes and the
     # aliases are regenerated from the union (rules of C11/R11.1)
     from rules._reuse import reuse
@@ -350,10 +352,10 @@ def run(repo: Repo, rep: Report, tier: str) -> None:
     reuse(repo, rep, "c11", {"R11.1": "R9.9"})
     # R9.12: whenever the output package exists and force is off, the compare-only branch runs (nothing else decides "first run")   [= R10.3]
     reuse(repo, rep, "c10", {"R10.3": "R9.12"}, only=lambda subj: "mode switch" in subj)
-    rule_no_memoised_outside_reads(repo, rep, "R9.13")
+    _guarded(rep, rule_no_memoised_outside_reads, repo, rep, "R9.13")
     from rules.c10 import rule_formatter_is_isolated
 
-    rule_formatter_is_isolated(repo, rep, "R9.14")
+    _guarded(rep, rule_formatter_is_isolated, repo, rep, "R9.14")
 
     # R9.7b emit-time renaming of IR names must be idempotent (test, loop, record)
     _idempotent_renames(repo, rep)
